@@ -884,3 +884,29 @@ def rule_G12(ck):
                            "RecursionError ('unexpected internal compiler error') while the same definitions in dependency order assemble", construct=f"forcing thunk in {where.split('::')[1]}")
     if len(sites) < 6:
         ck.unknown(f"only {len(sites)} forcing thunks found in {VALUE_MODULES} (eight confirmed by hand)")
+
+
+# ---------------------------------------------------------------------------------------------------------------
+# G0 - the package imports: the top level of every module folds without raising
+def rule_G0(ck):
+    """`python -m pdpy11` imports every module of the package before it reads a source file. Each module's top level (table
+    construction, decorators, class bodies) is folded by the interpreter; an exception there is an exception of every run."""
+    from ..engine.interp import ModuleRaises, Unsupported, Interp
+    repo = ck.repo
+    I = Interp(repo)
+    I.module_skip = {"devices", "_cli", "cli", "__main__", "__init__"}
+    n = 0
+    for name in sorted(repo.modules):
+        if name in I.module_skip:
+            continue
+        try:
+            I.explore(lambda name=name: I.module_env(name) and None)
+            n += 1
+            ck.instance(("module", name), None, fn=f"{name}::<module>")
+        except ModuleRaises as ex:
+            ck.instance(("module", name), {"module": name, "raises": ex.exc}, fn=f"{ex.module}::<module>")
+            ck.violation(f"{ex.module}::<module>", f"importing pdpy11.{ex.module} raises {ex.exc} ({ex}): every run of the assembler dies before it reads a source file", construct=f"module {ex.module} raises at import")
+        except Unsupported as ex:
+            ck.unknown(f"module {name}: {ex}")
+    if n < 12 and not ck.current.findings:
+        ck.unknown(f"only {n} modules folded")
